@@ -1066,3 +1066,67 @@ func VerifC15PassthroughStatic() {
 	}
 	vassert(rerr == nil && got.A == x && got.B == "s" && out == "s", "mapped and static value reach the successor of the pass-through")
 }
+
+type c15SO struct {
+	A string
+	B string
+}
+
+// A struct-typed workflow node with a static value that receives no mapped value in this run - it has only a control
+// dependency, or its only data predecessor was skipped by a branch while a control-only predecessor triggered it: it
+// runs once on the zero value of its input plus the static field (Invoke and Stream).
+func VerifC15StaticOnly() {
+	ctx := context.Background()
+	vcfg("fifo", 1)
+	vcfg("selectfirst", 1)
+	var got c15SO
+	runs := 0
+	kind := vchoose("kind", 3)
+	wf := NewWorkflow[string, string]()
+	n := wf.AddLambdaNode("n", InvokableLambda(func(ctx context.Context, in c15SO) (string, error) {
+		runs++
+		got = in
+		return "A=" + in.A + ",B=" + in.B, nil
+	}))
+	switch kind {
+	case 0: // control dependency only
+		n.AddDependency(START)
+	case 1, 2: // a data predecessor that the branch skips (1) or picks (2), next to a control-only one
+		wf.AddPassthroughNode("gate").AddInput(START)
+		wf.AddLambdaNode("a", InvokableLambda(func(ctx context.Context, in string) (string, error) { return in + "a", nil })).
+			AddInputWithOptions("gate", nil, WithNoDirectDependency())
+		wf.AddLambdaNode("b", InvokableLambda(func(ctx context.Context, in string) (string, error) { return in + "b", nil })).
+			AddInputWithOptions("gate", nil, WithNoDirectDependency())
+		pick := map[string]bool{"b": true}
+		if kind == 2 {
+			pick = map[string]bool{"a": true, "b": true}
+		}
+		wf.AddBranch("gate", NewGraphMultiBranch(func(ctx context.Context, in string) (map[string]bool, error) { return pick, nil }, map[string]bool{"a": true, "b": true}))
+		n.AddInput("a", ToField("A")).AddDependency("b")
+	}
+	n.SetStaticValue(FieldPath{"B"}, "static")
+	wf.End().AddInput("n")
+	r, err := wf.Compile(ctx)
+	vassert(err == nil, "workflow compiles")
+	x := vsymStr("x")
+	var out string
+	var rerr error
+	// (a mapped chunk next to the static chunk of a struct-typed input needs a registered concat function in streaming
+	// execution - eino's documented limitation - so the case with a mapped value is run by Invoke only)
+	if kind != 2 && vchoose("stream", 2) == 1 {
+		sr, e := r.Stream(ctx, x)
+		rerr = e
+		if e == nil {
+			out, rerr = sr.Recv()
+			sr.Close()
+		}
+	} else {
+		out, rerr = r.Invoke(ctx, x)
+	}
+	vassert(rerr == nil, "the run succeeds")
+	wantA := ""
+	if kind == 2 {
+		wantA = x + "a"
+	}
+	vassert(runs == 1 && got.A == wantA && got.B == "static" && out == "A="+wantA+",B=static", "the node runs once on the mapped values that arrived (none: the zero value) plus its static field")
+}
